@@ -9,7 +9,7 @@ func prop(id, title string, rules []string, explain string, notDecided []string,
 
 func init() {
 	prop("C01", "Add/Sub/Mul/Quo/Abs/Neg/Round return the exactly rounded result",
-		[]string{"C01.R1", "C01.R2", "C01.R3", "C01.R4", "C20.R1", "C20.R2", "C09.R1"},
+		[]string{"C01.R1", "C01.R2", "C01.R3", "C01.R4", "C20.R1", "C20.R2", "C09.R1", "C05.R4"},
 		"Decides the wiring of the rounding kernel for all inputs: the sign that reaches every rounding decision is the sign of the value being rounded; the half comparison is made on the division remainder and a non-zero remainder always raises Inexact or is folded into the coefficient (no lost remainder); single-rounding operations round at most once per path and never skip it; Precision 0 cannot reach the digit-discarding division; the eight decision functions have exactly their modes' truth tables (finite-domain evaluation) and every digit-dropping site consults them.",
 		[]string{"numeric equality with the once-rounded exact result (alignment, digit arithmetic, carries) — quantifies over coefficient values"})
 	prop("C02", "Condition flags describe exactly what happened to the result",
@@ -25,12 +25,12 @@ func init() {
 		"Decides: the reachable explicit panics are the three tabled, unreachable ones (with exhaustive switch companions); no possibly-nil pointer reaches a dereferencing parameter; every big-integer divisor is a power of ten, a non-zero constant or behind the operand's IsZero test, and table indices are guarded; every API-reachable loop is counted, error-checked on each cycle, or tabled with its variant; the parser rejects signs inside the digit string, keeps a NaN form on error and range-checks finite results.",
 		[]string{"implicit run-time panics that depend on values beyond the listed index/divisor/nil obligations (inside math/big), memory exhaustion, slow-but-finite operations at the ±100000 limits"})
 	prop("C05", "Any argument may alias the destination or another argument",
-		[]string{"C05.R1", "C05.R2", "C05.R3"},
+		[]string{"C05.R1", "C05.R2", "C05.R3", "C05.R4"},
 		"Decides the structural cause of alias-safety for every function with a destination role and a same-typed operand role: assuming they are the same object, no path reads an operand field after a non-copy write of that field through the destination (flow- and field-sensitive over SSA, bottom-up callee summaries, the repo's p==q / p!=nil guards prune paths); BigInt wrappers use distinct inner temporaries and the innerOrAlias helpers exactly where math/big compares pointers.",
 		[]string{"alias behaviour inside math/big (trusted)"},
 		"math/big methods are alias-safe when they can see the aliasing (same *big.Int or same backing array)", "hand summaries of (*BigInt).inner* / noescape; updateInner(src) copies src")
 	prop("C06", "Results depend only on operands and context; inputs are never modified",
-		[]string{"C06.R1", "C06.R2", "C06.R3", "C06.R4", "C06.R5", "C06.R6"},
+		[]string{"C06.R1", "C06.R2", "C06.R3", "C06.R4", "C06.R5", "C06.R6", "C06.R7"},
 		"Decides for all inputs and histories: destinations of exported operations are write-only until assigned and completely assigned (Form, Negative, Exponent, Coeff) on every result-delivering return; the mod-set through every operand-role parameter and through the Context is empty; pointers into package-level tables and constants never reach a written position outside initialisation; every package-level variable is init-only.",
 		[]string{"nothing numeric is needed for this property"},
 		"a Condition carrying a System* flag always becomes an error (C03.R1/R3), so such returns need not deliver a complete value", "math/big mod/ref table", "hand summaries of the unsafe helpers")
@@ -55,7 +55,7 @@ func init() {
 		"Decides only structure: Sqrt's final rounding runs with Precision = c.Precision and Rounding = half-even on a working context of larger precision; Cbrt returns zero flags only under operand == d³; both take specials from rootSpecials; their loops are bounded and their wrapper errors surfaced.",
 		[]string{"correct rounding of Sqrt and the 1-ulp bound of Cbrt: real-analysis error bounds of Newton iterations with tuned guard digits — no sound static argument in reach"})
 	prop("C12", "Exp, Ln, Log10 and Pow are accurate to one unit in the last place",
-		[]string{"C12.R1", "C12.R2", "C12.R3", "C04.R4", "C03.R5"},
+		[]string{"C12.R1", "C12.R2", "C12.R3", "C04.R4", "C03.R5", "C06.R7"},
 		"Decides: every digit of the ln 10 and 1/ln 10 literals (≈2200 each; the suite uses ≤ 50) equals an independent big-integer computation; the precision table doubles from 1 and is fetched at the working precision; the exact-by-definition shortcuts (exp 0, ln 1, x**0, integer exponents) exist with zero flags; overflow/underflow reports are confined to their guards.",
 		[]string{"one-ulp accuracy: series truncation and guard-digit sufficiency are statements about real numbers"})
 	prop("C13", "Text and binary encodings round-trip every Decimal exactly",
@@ -67,7 +67,7 @@ func init() {
 		"Decides: the digit string is sign-free when it reaches BigInt.SetString; special names are alternatives; payload and exponent are validated by strconv with error edges returning errors (base 10, 32 bit); every text entry point goes through the one parser; parse errors return no partial value; plain notation is chosen exactly under exponent ≤ 0 ∧ adjusted ≥ −6 with the documented zero exception; fmtE prints the adjusted exponent.",
 		[]string{"full language equality with the GDA grammar (acceptance of digit strings is delegated to strconv/math/big)", "Format's flag/width layout"})
 	prop("C15", "Cmp is the exact numeric order and CmpTotal is the documented total order",
-		[]string{"C15.R1", "C15.R2", "C15.R3", "C08.R1"},
+		[]string{"C15.R1", "C15.R2", "C15.R3", "C08.R1", "C05.R4"},
 		"Decides: the Form constants have the order CmpTotal relies on and cmpOrder is ±(Form+1); on every path of Decimal.Cmp that returns a coefficient comparison the result is negated exactly for negative operands and the larger-exponent side is the rescaled one; CmpTotal's exponent tie-break flips for negatives (path enumeration); comparisons write nothing; Context.Cmp has the NaN prologue.",
 		[]string{"order axioms over triples; correctness of the digit-count shortcut (numeric)"})
 	prop("C16", "BigInt behaves exactly like math/big.Int",
@@ -79,16 +79,16 @@ func init() {
 		"Decides: Int64 extracts the coefficient only behind the finite, integral and both range tests, each failing into an error, with bounds built from the int64 limits; Modf's outputs copy sign and form from the receiver, split by 10^(−exponent) with exponents 0 / receiver's, are alias-safe and completely assigned; the float path constants.",
 		[]string{"the ×10 loop and MinInt64 cast arithmetic in Int64; nearest-float claim (delegated to strconv)"})
 	prop("C18", "A Context and its operands can be shared by concurrent goroutines",
-		[]string{"C06.R3", "C06.R4", "C06.R5", "C06.R6", "C18.R4"},
+		[]string{"C06.R3", "C06.R4", "C06.R5", "C06.R6", "C06.R7", "C18.R4"},
 		"A schedule-independent data-race-freedom argument: with each goroutine owning its destination, two calls race only if one writes a location the other accesses; the rules show no function writes through an operand-role pointer, through the Context, or through a pointer rooted at package-level state outside initialisation (which happens-before every goroutine), and that the package has no goroutines, no sync/atomic state and no run-time memoisation.",
 		[]string{"\"returns exactly what it returns alone\" follows from race freedom plus C06 determinism; not checked separately"},
 		"math/big does not write its read-only arguments", "Go memory model: package initialisation happens-before any use")
 	prop("C19", "Reduce and NumDigits are exact",
-		[]string{"C04.R2", "C06.R1", "C07.R4", "C19.R3", "C19.R4", "C04.R3"},
+		[]string{"C04.R2", "C06.R1", "C07.R4", "C19.R3", "C19.R4", "C04.R3", "C05.R4"},
 		"Decides: no nil pointer reaches NumDigits' comparison on the >128-bit negative path; Decimal.Reduce's count reads the operand, never the destination; Context.Reduce strips after rounding and restores the operand's sign; NumDigits' positive and negative arms are mirror images over the same table entry and the table index is guarded.",
 		[]string{"that the table contents and the float estimate are right (numeric; initialisation code)"})
 	prop("C20", "Rounding modes bracket each other and rounding is monotone",
-		[]string{"C20.R1", "C20.R2", "C01.R1", "C01.R2", "C09.R1", "C20.R5"},
+		[]string{"C20.R1", "C20.R2", "C01.R1", "C01.R2", "C09.R1", "C20.R5", "C05.R4"},
 		"Decides the structural causes of bracketing/mirroring: exhaustive, distinct dispatch of the eight modes; each decision function has exactly its mode's truth table over neg × sign(half) (so floor/ceiling are complementary in neg, directed modes ignore half, half modes ignore neg); every caller hands the decision the true sign and a real half comparison; no digit-dropping path bypasses it; Sub is add with only y's sign flipped.",
 		[]string{"the relational inequalities between the eight results themselves; monotonicity and scaling laws (numeric)"})
 }
